@@ -344,7 +344,16 @@ def guard(body, pred, start=0):
         while c[0] == "un" and c[1] == "Not" and l in ("true", "false"):
             c, l = c[2], ("false" if l == "true" else "true")
             r = render(c)
-        return pred(c, r, l)
+        if pred(c, r, l):
+            return True
+        # one level into a crate-local bool helper: `if self.should_x(a, b)` proves whatever the helper's `true` requires
+        for hc_, hl in helper_facts(body, c, l):
+            try:
+                if pred(hc_, render(hc_), hl):
+                    return True
+            except Exception:
+                pass
+        return False
     base = body.guard_edges(p2)
     out = body.derive_edges(base, p2, start)
     if start != 0:
@@ -368,3 +377,101 @@ def frontier(body, edges, start=0):
     the entry edges of the guarded region (the right starting points for counting what happens under the guard)"""
     r = body.reachable([start], blocked_edges=set(edges))
     return {(b, t) for (b, t) in edges if b in r}
+
+
+# ---------------------------------------------------------------------------- one level into crate-local helpers
+def local_fn(body, call_expr):
+    """Body of the crate-local (non-closure) function a call expression resolves to, else None"""
+    if call_expr[0] != "call":
+        return None
+    idx = getattr(body.prog, "_gs_by_path", None)
+    if idx is None or idx[0] != body.crate:
+        idx = (body.crate, {b.npath: b for b in body.prog.bodies(body.crate) if b.kind != "closure"})
+        body.prog._gs_by_path = idx
+    h = idx[1].get(strip_generics(call_expr[1]))
+    return h if h is not None and h is not body else None
+
+
+def subst(e, amap):
+    """expression of a callee with its parameters replaced by the caller's actual arguments (amap: param index -> expr)"""
+    t = e[0]
+    if t == "arg":
+        return amap.get(e[1], e)
+    if t == "call":
+        return ("call", e[1], tuple(subst(a, amap) for a in e[2]), e[3])
+    if t == "bin":
+        return ("bin", e[1], subst(e[2], amap), subst(e[3], amap))
+    if t == "un":
+        return ("un", e[1], subst(e[2], amap))
+    if t == "cast":
+        return ("cast", subst(e[1], amap), e[2])
+    if t == "field":
+        return ("field", subst(e[1], amap), e[2], e[3])
+    if t == "downcast":
+        return ("downcast", subst(e[1], amap), e[2])
+    if t == "discr":
+        return ("discr", subst(e[1], amap))
+    if t == "agg":
+        return ("agg", e[1], e[2], e[3], tuple((f, subst(x, amap)) for f, x in e[4]))
+    return e
+
+
+def helper_facts(body, cond, label):
+    """If `cond` is a call to a crate-local bool helper and label is 'true': the facts that hold whenever the helper returns
+    true, as (expr-in-caller-terms, label) pairs (the helper's parameters replaced by the actual arguments).  One level only."""
+    if label != "true":
+        return []
+    h = local_fn(body, cond)
+    if h is None or h.locals[0] != "bool":
+        return []
+    amap = {i + 1: a for i, a in enumerate(cond[2])}
+    out = []
+    try:
+        reqs = truth_requirements(h)
+    except Exception:
+        return []
+    for c, pol in reqs:
+        if c[0] == "variant":
+            continue
+        out.append((subst(expand(h, c), amap), "true" if pol else "false"))
+    return out
+
+
+def guarded(ctx, rule, instance, site, pred, desc, start=0):
+    """ctx.guarded with lib_gs.guard's closure (bool hoisting, `!x`, one level into bool helpers)"""
+    body = site.body
+    ctx.bodies.add(body.npath)
+    edges = guard(body, pred, start)
+    ok = bool(edges) and body.must_pass_edges(site.bb, edges, start)
+    ctx.ob(rule, instance, ok, site.loc(), ("guard present on all paths: " if ok else "a path reaches this site without the guard: ") + desc)
+    return ok
+
+
+def wrapped_calls(body, pat, mode="value"):
+    """Call sites in `body` that amount to a call of `pat`: the direct calls, plus calls of a crate-local helper that
+    (mode 'value') returns exactly the result of one such call or (mode 'effect') performs it exactly once on every path.
+    Returns [(site, [actual argument expressions in the caller's terms])]."""
+    out = []
+    for s in body.call_sites():
+        e = body.site_expr(s)
+        if re.search(pat, strip_generics(body.call_name(s.term))):
+            out.append((s, list(e[2])))
+            continue
+        h = local_fn(body, e)
+        if h is None:
+            continue
+        inner = h.call_sites(pat)
+        if len(inner) != 1:
+            continue
+        ie = h.site_expr(inner[0])
+        if mode == "value":
+            rs = [x for _, x in ret_exprs(h)]
+            if not (len(rs) == 1 and rs[0][0] == "call" and rs[0][3] == inner[0].bb and re.search(pat, strip_generics(rs[0][1]))):
+                continue
+        else:
+            from . import lib as _lib
+            if _lib.count_range(h, [0], h.return_blocks(), [inner[0].bb]) != (1, 1):
+                continue
+        amap = {i + 1: a for i, a in enumerate(e[2])}
+        out.append((s, [subst(expand(h, a), amap) for a in ie[2]]))
+    return out
